@@ -201,3 +201,11 @@ func TestC16Interleaved(t *testing.T) {
 }
 
 func init() { registerReplay("C16", "interleaved", CheckC16Interleaved) }
+
+// The first clause of C03 (one meaning per innovation number and node id) holds under every executor: the same generated
+// interleavings are part of C03's check as well.
+func TestC03Interleaved(t *testing.T) {
+	runProp(t, "C03", "interleaved", 1000, 15000, GenC16Interleaved(), CheckC16Interleaved)
+}
+
+func init() { registerReplay("C03", "interleaved", CheckC16Interleaved) }
